@@ -230,6 +230,29 @@ def generate(rng, tier):
             toks = ["expert=1"] + toks + [f"submethod={rng.choice([0, 2])}"]
             info["expert"] = True
         cases.append(finish(g, toks, info, ("gen:split-rich-patches",), False))
+    # ---- (d) one draco::Encoder object used for two geometries in a row (mesh then point cloud, point cloud then
+    #      mesh, …): the counts reported after the second encode are those of the second geometry
+    for _ in range(80 * mul):
+        def one(as_mesh):
+            if as_mesh:
+                nv, f = topo2.topo_fan(rng) if rng.random() < 0.5 else G.topo_grid(rng, rng.randint(1, 3), rng.randint(1, 3))
+                return seam_mesh(rng, ("fan", nv, topo2._finish(rng, f)), natt=rng.randint(0, 2))
+            return G.rand_point_cloud(rng, 20)
+        ga, gb = one(rng.random() < 0.6), one(rng.random() < 0.5)
+        if ga.is_mesh == gb.is_mesh and rng.random() < 0.7:
+            gb = one(not ga.is_mesh)
+        if gb.num_points == 0 or ga.num_points == 0:
+            continue
+        ta = [f"method={rng.randint(0, 1)}", f"speed={rng.randint(0, 10)},{rng.randint(0, 10)}"] + (["track=1"] if rng.random() < 0.7 else [])
+        tb = [f"method={rng.randint(0, 1)}", f"speed={rng.randint(0, 10)},{rng.randint(0, 10)}"]
+        if not gb.is_mesh and tb[0] == "method=1":
+            tb.append("q0=10")
+        if not ga.is_mesh and ta[0] == "method=1":
+            ta.append("q0=10")
+        info = {"expert": False, "req": {}, "track": True, "skip": None}
+        c = finish(gb, tb, info, ("gen:encoder-object-history", "first:" + ("mesh" if ga.is_mesh else "pc"), "second:" + ("mesh" if gb.is_mesh else "pc")), False)
+        c.op = "encdech " + " ".join(ta) + " -- " + ga.to_text() + " ;; " + c.op[len("encdec "):]
+        cases.append(c)
     # ---- (c) non-deduplicated points
     for _ in range(60 * mul):
         nv, f = topo2.topo_fan(rng) if rng.random() < 0.6 else G.topo_grid(rng, 2, 2)
